@@ -556,6 +556,10 @@ impl<'l, Data> EventLoop<'l, Data> {
             }
         }
 
+        // A failing source must not cost the other sources their events: the whole batch is processed
+        // and the first error is reported once it is.
+        let mut first_error: Option<crate::Error> = None;
+
         for event in self.synthetic_events.drain(..).chain(events) {
             // Get the registration token associated with the event.
             let reg_token = event.token.inner.forget_sub_id();
@@ -581,51 +585,62 @@ impl<'l, Data> EventLoop<'l, Data> {
                     .inner
                     .pending_action
                     .replace(PostAction::Continue);
-                let mut ret = ret?;
-                if let PostAction::Continue = ret {
-                    ret = pending_action;
-                }
+                let outcome: crate::Result<()> = 'event: {
+                    let mut ret = match ret {
+                        Ok(ret) => ret,
+                        Err(err) => break 'event Err(err),
+                    };
+                    if let PostAction::Continue = ret {
+                        ret = pending_action;
+                    }
 
-                match ret {
-                    PostAction::Reregister => {
-                        trace!(
-                            source = reg_token.get_id(),
-                            "Postaction reregister for source"
-                        );
-                        disp.reregister(
-                            &mut self.handle.inner.poll.borrow_mut(),
-                            &mut self
-                                .handle
-                                .inner
-                                .sources_with_additional_lifecycle_events
-                                .borrow_mut(),
-                            &mut TokenFactory::new(reg_token),
-                        )?;
-                    }
-                    PostAction::Disable => {
-                        trace!(
-                            source = reg_token.get_id(),
-                            "Postaction unregister for source"
-                        );
-                        disp.unregister(
-                            &mut self.handle.inner.poll.borrow_mut(),
-                            &mut self
-                                .handle
-                                .inner
-                                .sources_with_additional_lifecycle_events
-                                .borrow_mut(),
-                            RegistrationToken::new(reg_token),
-                        )?;
-                    }
-                    PostAction::Remove => {
-                        trace!(source = reg_token.get_id(), "Postaction remove for source");
-                        if let Ok(entry) = self.handle.inner.sources.borrow_mut().get_mut(reg_token)
-                        {
-                            entry.source = None;
+                    match ret {
+                        PostAction::Reregister => {
+                            trace!(
+                                source = reg_token.get_id(),
+                                "Postaction reregister for source"
+                            );
+                            if let Err(err) = disp.reregister(
+                                &mut self.handle.inner.poll.borrow_mut(),
+                                &mut self
+                                    .handle
+                                    .inner
+                                    .sources_with_additional_lifecycle_events
+                                    .borrow_mut(),
+                                &mut TokenFactory::new(reg_token),
+                            ) {
+                                break 'event Err(err);
+                            }
                         }
+                        PostAction::Disable => {
+                            trace!(
+                                source = reg_token.get_id(),
+                                "Postaction unregister for source"
+                            );
+                            if let Err(err) = disp.unregister(
+                                &mut self.handle.inner.poll.borrow_mut(),
+                                &mut self
+                                    .handle
+                                    .inner
+                                    .sources_with_additional_lifecycle_events
+                                    .borrow_mut(),
+                                RegistrationToken::new(reg_token),
+                            ) {
+                                break 'event Err(err);
+                            }
+                        }
+                        PostAction::Remove => {
+                            trace!(source = reg_token.get_id(), "Postaction remove for source");
+                            if let Ok(entry) =
+                                self.handle.inner.sources.borrow_mut().get_mut(reg_token)
+                            {
+                                entry.source = None;
+                            }
+                        }
+                        PostAction::Continue => {}
                     }
-                    PostAction::Continue => {}
-                }
+                    Ok(())
+                };
 
                 if self
                     .handle
@@ -651,12 +666,19 @@ impl<'l, Data> EventLoop<'l, Data> {
                         warn!("Failed to unregister source from the polling system: {e:?}",);
                     }
                 }
+
+                if let Err(err) = outcome {
+                    first_error.get_or_insert(err);
+                }
             } else {
                 warn!(?reg_token, "Received an event for non-existent source");
             }
         }
 
-        Ok(())
+        match first_error {
+            Some(err) => Err(err),
+            None => Ok(()),
+        }
     }
 
     fn dispatch_idles(&mut self, data: &mut Data) {
